@@ -419,7 +419,7 @@ func run(t *testing.T, which string) {
 		for _, tr := range trs {
 			for _, rec := range []bool{false, true} {
 				i++
-				p := params{Transports: tr, Recovery: rec, Clients: 1 + i%3, Emitters: 2, Per: vres.Pick(30, 120), Big: true, Shapes: all}
+				p := params{Transports: tr, Recovery: rec, Clients: 1 + i%3, Emitters: 2, Per: vres.Pick(30, 60), Big: true, Shapes: all}
 				if !thorough && len(tr) == 1 && tr[0] == "polling" && rec {
 					p.Per = 6
 				}
@@ -427,16 +427,16 @@ func run(t *testing.T, which string) {
 			}
 		}
 		if thorough {
-			for i := 0; i < 12; i++ {
-				e.scenario(rng, params{Transports: trs[i%3], Recovery: i%2 == 0, Clients: 1 + i%3, Emitters: 4, Per: 150, Big: i%3 == 0, Shapes: all}, "c01")
+			for i := 0; i < 24; i++ {
+				e.scenario(rng, params{Transports: trs[i%3], Recovery: i%2 == 0, Clients: 1 + i%3, Emitters: 4, Per: 60, Big: i%3 == 0, Shapes: all}, "c01")
 			}
 		}
 	} else {
 		// order and contiguity: many emitters, bursts, 0..4 attachments, small payloads
 		for i, tr := range trs {
-			e.scenario(rng, params{Transports: tr, Recovery: false, Clients: 1, Emitters: vres.Pick(4, 16), Per: vres.Pick(40, 500), Big: false, Shapes: []int{0, 2, 3, 5}}, "c02")
+			e.scenario(rng, params{Transports: tr, Recovery: false, Clients: 1, Emitters: vres.Pick(4, 16), Per: vres.Pick(40, 60), Big: false, Shapes: []int{0, 2, 3, 5}}, "c02")
 			if thorough || i == 0 {
-				e.scenario(rng, params{Transports: tr, Recovery: false, Clients: 2, Emitters: vres.Pick(3, 8), Per: vres.Pick(25, 200), Big: false, Shapes: all}, "c02")
+				e.scenario(rng, params{Transports: tr, Recovery: false, Clients: 2, Emitters: vres.Pick(3, 8), Per: vres.Pick(25, 60), Big: false, Shapes: all}, "c02")
 			}
 		}
 		e.k3()
